@@ -103,6 +103,57 @@ func c03EmitWorld(t *testing.T, em *Emitter, src string, rc c08Recipe, only int)
 	}
 }
 
+// ---------------------------------------------------------------- (c) observation quorum for every (n, f)
+
+type c03QuorumInput struct {
+	Kind string `json:"kind"` // "quorum"
+	N    int    `json:"n"`
+	F    int    `json:"f"`
+	X    *struct {
+		N int `json:"n"`
+		F int `json:"f"`
+	} `json:"x,omitempty"`
+}
+type c03QuorumImpl struct {
+	Quorum []bool `json:"quorum"` // ObservationQuorum for 0, 1, …, n observations
+	Err    string `json:"err,omitempty"`
+}
+
+func c03RunQuorum(t *testing.T, em *Emitter, src string, n, f int) {
+	var impl c03QuorumImpl
+	synctest.Test(t, func(t *testing.T) {
+		withNode(t, NodeOpts{N: n, F: f}, func(node *Node) {
+			for k := 0; k <= n; k++ {
+				aos := make([]ocr2plustypes.AttributedObservation, k)
+				for j := range aos {
+					aos[j].Observer = commontypes.OracleID(j)
+				}
+				q, err := node.Plugin.ObservationQuorum(context.Background(), ocr3types.OutcomeContext{SeqNr: 1}, nil, aos)
+				if err != nil {
+					impl.Err = err.Error()
+				}
+				impl.Quorum = append(impl.Quorum, q)
+			}
+		})
+	})
+	in := c03QuorumInput{Kind: "quorum", N: n, F: f}
+	in.X = &struct {
+		N int `json:"n"`
+		F int `json:"f"`
+	}{n, f}
+	em.Emit(src, in, impl)
+	em.Hit("kind=quorum")
+}
+
+// c03QuorumSweep: every configuration with 3f+1 <= n <= 13 (f = 0 included), every number of observations 0…n.
+func c03QuorumSweep(t *testing.T, em *Emitter) {
+	for f := 0; 3*f+1 <= 13; f++ {
+		for n := 3*f + 1; n <= 13; n++ {
+			c03RunQuorum(t, em, "edge", n, f)
+		}
+	}
+}
+
 // ---------------------------------------------------------------- (b) chains
 
 type c03ChainRecipe struct {
@@ -123,6 +174,13 @@ type c03ChainRecipe struct {
 	Split bool `json:"split"`
 	// SameUpkeep: that many logs of ONE upkeep arrive before the first round (one report each, whatever the batch size)
 	SameUpkeep int `json:"sameUpkeep"`
+	// Reorgs: the block sources report windows of 3…300 blocks and the newest blocks are reorganised now and then
+	// (same numbers, new hashes) between two updates
+	Reorgs bool `json:"reorgs"`
+	// Byz: one of the counted observations (<= f) is altered: it also proposes conditional work again that the network
+	// surfaced in an earlier round and that is still in the 20-round history, now on the current block; and fresh
+	// conditional work nobody can check (it stays in the history)
+	Byz bool `json:"byz"`
 }
 
 // c03Cfg is the effective report configuration (after ensureMinimumDefaults), for the model of Reports.
@@ -276,7 +334,8 @@ func c03RunChain(t *testing.T, rc c03ChainRecipe, em *Emitter, emit func(round i
 			}
 		}
 	}
-	condCap := map[int]int{4: 20, 7: 4, 10: 2}[n] // OfInt: round(0.98*20)=20, round(float32(0.9)*4)=4 (but *5 gives 4), round(0.81*2)=2
+	var byzCond []ocr2keepers.CoordinatedBlockProposal // conditional work the altered observations proposed so far
+	condCap := map[int]int{4: 20, 5: 8, 7: 4, 10: 2}[n] // OfInt: round(0.98*20)=20, round(float32(0.9)*4)=4 (but *5 gives 4), round(0.81*2)=2
 	seq := uint64(r.Range(1, 500))
 	var prev *ocr2keepersv3.AutomationOutcome
 	var prevBytes []byte
@@ -338,6 +397,15 @@ func c03RunChain(t *testing.T, rc c03ChainRecipe, em *Emitter, emit func(round i
 			// blocks
 			height += uint64(r.Range(0, 3))
 			depth := []int{3, 10, 40, 256, 300}[r.Intn(5)]
+			if rc.Reorgs {
+				depth = []int{3, 8, 16, 40, 100, 255, 256, 300}[r.Intn(8)]
+				if r.Chance(35) { // the newest 1…3 blocks are replaced by siblings
+					for d := r.Range(1, 3); d > 0; d-- {
+						chainHashes[height-uint64(d-1)] = genHash(r)
+					}
+					em.Hit("chain-reorgs")
+				}
+			}
 			for _, nd := range nodes {
 				top := height - uint64(r.Intn(2)) // some nodes lag by a block
 				h := make(ocr2keepers.BlockHistory, 0, depth)
@@ -369,6 +437,9 @@ func c03RunChain(t *testing.T, rc c03ChainRecipe, em *Emitter, emit func(round i
 			m = r.Range(2*f+1, n)
 		}
 		oracles := r.Perm(n)[:m]
+		if rc.Byz && f >= 1 && !last && r.Chance(60) {
+			c03Byzantine(r, em, raws, oracles[0], prev, &byzCond, height, hashAt(height))
+		}
 		var aos []ocr2plustypes.AttributedObservation
 		var selRaws [][]byte
 		var validate []string
@@ -513,8 +584,60 @@ func compactRound(x *JRound, impl *c03RoundImpl) {
 	}
 }
 
+// c03Byzantine alters the observation of one oracle (it stays valid): conditional proposals for work that is still in the
+// history of surfaced proposals, made again on the current block, and now and then fresh conditional work.
+func c03Byzantine(r *Rng, em *Emitter, raws [][]byte, o int, prev *ocr2keepersv3.AutomationOutcome,
+	byzCond *[]ocr2keepers.CoordinatedBlockProposal, height uint64, hash [32]byte) {
+	var obs ocr2keepersv3.AutomationObservation
+	if raws[o] == nil || gojson.Unmarshal(raws[o], &obs) != nil {
+		return
+	}
+	have := map[string]bool{}
+	nCond := 0
+	for _, p := range obs.UpkeepProposals {
+		have[p.WorkID] = true
+		if utg(p.UpkeepID) != 1 {
+			nCond++
+		}
+	}
+	var cand []ocr2keepers.CoordinatedBlockProposal
+	if prev != nil { // conditional work in the history of the previous outcome
+		for _, round := range prev.SurfacedProposals {
+			for _, p := range round {
+				if p.Trigger.LogTriggerExtension == nil && utg(p.UpkeepID) != 1 {
+					cand = append(cand, p)
+				}
+			}
+		}
+	}
+	if len(cand) == 0 || r.Chance(30) {
+		uid := genUpkeepID(r, false)
+		p := ocr2keepers.CoordinatedBlockProposal{UpkeepID: uid}
+		p.WorkID = wg(uid, p.Trigger)
+		*byzCond = append(*byzCond, p)
+		cand = append(cand, p)
+		em.Hit("byz-fresh-conditional")
+	}
+	added := 0
+	for _, k := range r.Perm(len(cand)) {
+		p := cand[k]
+		if have[p.WorkID] || nCond >= ocr2keepersv3.ObservationConditionalsProposalsLimit || added >= 2 {
+			continue
+		}
+		p.Trigger = ocr2keepers.Trigger{BlockNumber: ocr2keepers.BlockNumber(height), BlockHash: hash}
+		obs.UpkeepProposals = append(obs.UpkeepProposals, p)
+		have[p.WorkID] = true
+		nCond++
+		added++
+	}
+	if added > 0 {
+		raws[o] = must(obs.Encode())
+		em.Hit("byz-altered-observations")
+	}
+}
+
 func c03ChainGen(r *Rng, i int) c03ChainRecipe {
-	rc := c03ChainRecipe{Seed: r.U64(), N: []int{4, 4, 7, 10}[r.Intn(4)], Rounds: 30, PerRound: r.Range(1, 12), Props: r.Range(0, 4), PauseAt: -1, Round: -1}
+	rc := c03ChainRecipe{Seed: r.U64(), N: []int{4, 4, 5, 7, 10}[r.Intn(5)], Rounds: 30, PerRound: r.Range(1, 12), Props: r.Range(0, 4), PauseAt: -1, Round: -1}
 	switch i % 5 {
 	case 0:
 		rc.Burst = r.Range(101, 180) // beyond both 100 caps
@@ -539,6 +662,8 @@ func c03ChainGen(r *Rng, i int) c03ChainRecipe {
 	if i%5 == 3 {
 		rc.SameUpkeep = r.Range(20, 110)
 	}
+	rc.Reorgs = i%2 == 0
+	rc.Byz = i%5 != 1
 	return rc
 }
 
@@ -594,6 +719,12 @@ func TestC03(t *testing.T) {
 				t.Fatalf("%s: %v", names[i], err)
 			}
 			c03EmitWorld(t, em, names[i], in.c08Recipe, in.Node)
+		case "quorum":
+			var in c03QuorumInput
+			if err := json.Unmarshal(raw, &in); err != nil {
+				t.Fatalf("%s: %v", names[i], err)
+			}
+			c03RunQuorum(t, em, names[i], in.N, in.F)
 		case "round":
 			var in c03RoundInput
 			if err := json.Unmarshal(raw, &in); err != nil {
@@ -614,6 +745,10 @@ func TestC03(t *testing.T) {
 		}
 		c03EmitWorld(t, em, "edge", rc, -1)
 	}
+	for _, rc := range c08SweepEdge() { // maximal-size results, every count from 60 to 80: around the byte-limit threshold
+		c03EmitWorld(t, em, "edge", rc, -1)
+	}
+	c03QuorumSweep(t, em)
 	r := NewRng(seed() + 3000)
 	nw := tierN(34, 600)
 	for i := 0; i < nw; i++ {
@@ -641,5 +776,8 @@ func c03ChainEdge() []c03ChainRecipe {
 		// 100 logs of ONE upkeep with batch size 20: one report each
 		{Seed: 7, N: 4, Rounds: 5, SameUpkeep: 100, PerRound: 1, PauseAt: -1, Round: -1, Batch: 20},
 		{Seed: 8, N: 4, Rounds: 5, Burst: 120, PerRound: 1, PauseAt: -1, Round: -1, Batch: 10, GasLimit: 6_000_000},
+		// short block windows with reorgs; an altered observation proposes surfaced conditional work again; n = 5, f = 1
+		{Seed: 9, N: 5, Rounds: 12, Burst: 3, PerRound: 2, Props: 3, PauseAt: -1, Round: -1, Reorgs: true, Byz: true},
+		{Seed: 10, N: 4, Rounds: 12, Burst: 3, PerRound: 2, Props: 2, PauseAt: -1, Round: -1, Batch: 3, Reorgs: true, Byz: true},
 	}
 }
